@@ -2,6 +2,7 @@ package harness
 
 import (
 	"bytes"
+	"io"
 	"context"
 	"errors"
 	"fmt"
@@ -70,6 +71,8 @@ type Op struct {
 	IgnoreCtx bool   `json:"ignore_ctx,omitempty"` // sub: producer ignores cancellation
 	Stall     bool   `json:"stall,omitempty"`      // sub: the consumer never reads
 	Consume   int    `json:"consume,omitempty"`    // sub: stop reading after k values (0 = all)
+	Alias     bool   `json:"alias,omitempty"`      // sub: subscribe through the server-side alias T.SubAlias
+	Src       int    `json:"src,omitempty"`        // reader: 0 bytes.Reader, 1 section reader at an offset, 2 length-less reader, 3 partly consumed bytes.Reader
 }
 
 type Fault struct {
@@ -187,9 +190,9 @@ func (w *World) Exec(op Op, ctx context.Context) {
 		case "revsub":
 			val, err = c.P.RevSub(ctx, op.Tok)
 		case "reader":
-			val, err = c.P.ReadAll(ctx, op.Tok, bytes.NewReader(Payload(op.Tok, op.Size)))
+			val, err = c.P.ReadAll(ctx, op.Tok, readerSource(op))
 		case "reader-retry":
-			val, err = c.P.ReadAllRetry(ctx, op.Tok, bytes.NewReader(Payload(op.Tok, op.Size)))
+			val, err = c.P.ReadAllRetry(ctx, op.Tok, readerSource(op))
 		case "notifyrev":
 			err = c.P.NotifyRev(ctx, op.Tok)
 		case "subf":
@@ -236,7 +239,9 @@ func (w *World) Exec(op Op, ctx context.Context) {
 			}
 		case "sub", "subretry":
 			var ch <-chan int
-			if op.Kind == "sub" {
+			if op.Kind == "sub" && op.Alias {
+				ch, err = c.P.SubAlias(ctx, op.Tok)
+			} else if op.Kind == "sub" {
 				ch, err = c.P.Sub(ctx, op.Tok)
 			} else {
 				ch, err = c.P.SubRetry(ctx, op.Tok)
@@ -435,3 +440,29 @@ func (w *World) WSPipes() []*simnet.Pipe {
 }
 
 func itoa(i int) string { return strconv.Itoa(i) }
+
+// readerSource builds the io.Reader a reader-carrying call passes: always the
+// same byte sequence Payload(tok, size) from the current position to EOF, but
+// through reader types net/http sizes differently (or not at all), some of
+// them positioned behind a prefix the caller has already consumed.
+func readerSource(op Op) io.Reader {
+	pay := Payload(op.Tok, op.Size)
+	k := 1 + (op.Tok*37+op.Size)%4000
+	pre := make([]byte, k)
+	for i := range pre {
+		pre[i] = byte('p' + i%7)
+	}
+	switch op.Src {
+	case 1:
+		sr := io.NewSectionReader(bytes.NewReader(append(pre, pay...)), 0, int64(k+len(pay)))
+		_, _ = sr.Seek(int64(k), io.SeekStart)
+		return sr
+	case 2:
+		return struct{ io.Reader }{bytes.NewReader(pay)}
+	case 3:
+		br := bytes.NewReader(append(pre, pay...))
+		_, _ = io.ReadFull(br, make([]byte, k))
+		return br
+	}
+	return bytes.NewReader(pay)
+}
